@@ -79,6 +79,11 @@ def check(h, baseline=None):
         if r.invoke is not None and r.exc is None:
             triples.setdefault((r.c, r.peer, r.invoke), []).append(r)
     ambiguous_clients = set()
+    addr_of = {name: str(st.address) for name, st in h.stacks.items()}
+    resp_by = {}
+    for e in w.events:
+        if e[2] == 'resp':      # (seq, t, 'resp', server, peer, invoke, tok, rs_len)
+            resp_by.setdefault((e[3], str(e[4]), e[5]), []).append(e)
     stale_rx = {}
     for f in w.rx:
         if f.get('wseq') is None:
@@ -105,6 +110,18 @@ def check(h, baseline=None):
                 if f['wseq'] < r.act0 <= f['seq'] <= rend and f['inv'] == r.invoke:
                     ambiguous = True
                     w.probe('same_id_stale_frame_ambiguous')
+                    break
+        if not ambiguous and r.act0 is not None and r.invoke is not None:
+            # the serving APPLICATION handed the stack an answer for this (peer, invoke id) that belongs to another request
+            # (a slow application answering an indication whose transaction the application timeout had closed long ago):
+            # an answer carries nothing but (peer, id), the stack cannot know which request the application meant
+            ro = txn.outcomes_of(h, r)
+            rend = ro[0][0] if ro else 1 << 60
+            caddr = addr_of.get(r.c)
+            for e in resp_by.get((r.s, caddr, r.invoke), ()):
+                if r.act0 <= e[0] <= rend and e[6] != r.tok:
+                    ambiguous = True
+                    w.probe('stale_application_answer_ambiguous')
                     break
         if ambiguous:
             w.probe('same_id_reuse_ambiguous')
